@@ -60,7 +60,46 @@ func (c11) Rule() string {
 // record parser or the CRAM header-block parser at all.
 var c11Targets = []string{"bgzf", "bam", "bam-inner", "bam-inner", "sam", "sam", "bai", "csi", "tabix", "fai", "fasta", "cram", "cram-inner"}
 
+// c11AuxRecs is the fixed record list of the enumerated aux-edit cases: every
+// aux type once, B arrays of 8, 3 and 0 elements.
+func c11AuxRecs() []RecSpec {
+	var aux []AuxSpec
+	for i, ty := range []string{"A", "c", "C", "s", "S", "i", "I", "f", "Z", "H"} {
+		aux = append(aux, AuxSpec{Tag: string([]byte{'X', byte('a' + i)}), Typ: ty, N: 5, Seed: uint32(i + 1)})
+	}
+	aux = append(aux, AuxSpec{Tag: "XZ", Typ: "c", Seed: 31}, AuxSpec{Tag: "YH", Typ: "C", Seed: 32}) // tags whose second letter is a type letter
+	aux = append(aux, AuxSpec{Tag: "Ba", Typ: "B", Sub: "c", N: 8, Seed: 21}, AuxSpec{Tag: "Bb", Typ: "B", Sub: "S", N: 3, Seed: 22}, AuxSpec{Tag: "Bc", Typ: "B", Sub: "f", N: 0, Seed: 23})
+	var recs []RecSpec
+	for i := 0; i < len(aux); i++ {
+		// record i ends with aux field i, so every field is also seen in last position
+		rot := append(append([]AuxSpec(nil), aux[i+1:]...), aux[:i+1]...)
+		recs = append(recs, RecSpec{Name: fmt.Sprintf("e%d", i), RefID: -1, NextRef: -1, Pos: -1, NextPos: -1, SeqLen: 4, HasQual: true, Seed: uint32(100 + i), Aux: rot})
+	}
+	return recs
+}
+
+const c11TypeLetters = "AcCsSiIfZHB\x00"
+
+// c11AuxEdits enumerates (record, aux field, edit) triples.
+func c11AuxEdits() [][3]int {
+	var out [][3]int
+	recs := c11AuxRecs()
+	for r := range recs {
+		k := len(recs[r].Aux) - 1 // the field in last position, plus the first one
+		for _, kk := range []int{0, k} {
+			for e := 0; e < 12+12+7+3; e++ {
+				out = append(out, [3]int{r, kk, e})
+			}
+		}
+	}
+	return out
+}
+
 func (c11) Gen(t *Tape, tier string, run int) interface{} {
+	if edits := c11AuxEdits(); run < len(edits) {
+		e := edits[run]
+		return &c11Case{Target: "bam-aux-enum", GenSeed: 1, Faults: []StoreFault{{Kind: "aux-edit", A: e[0]*64 + e[1], B: e[2]}}, RD: 1, Kind: "read+seek"}
+	}
 	targets := c11Targets
 	if only := os.Getenv("HTSV_C11_ONLY"); only != "" {
 		targets = strings.Split(only, ",") // triage aid
@@ -136,6 +175,8 @@ func applyFaults(img []byte, fs []StoreFault) ([]byte, []bool) {
 				v := []uint32{0xffffffff, 0, 0x7fffffff, 0x80000000, 1}[f.B%5]
 				binary.LittleEndian.PutUint32(out[p:], v)
 			}
+		case "aux-edit":
+			// enumerated structural edit, handled by the bam-aux-enum target
 		case "aux-retype":
 			// structural, BAM streams only (see bamStream); a bit flip elsewhere
 			out[a] ^= 1 << uint(f.B%8)
@@ -503,6 +544,9 @@ func decode(x *Exec, c *c11Case, file *File) (outcome string) {
 	if i := strings.Index(target, "-inner"); i > 0 {
 		target = target[:i]
 	}
+	if target == "bam-aux-enum" {
+		target = "bam"
+	}
 	switch target {
 	case "bgzf":
 		bgzf.HasEOF(file.RA())
@@ -825,6 +869,56 @@ func (c11) Exec(x *Exec, ci interface{}) *Verdict {
 		}
 		bad, _ := applyFaults(bamStream(c.GenSeed, c.Faults), rest)
 		img = wrapBAM(bad, c.GenSeed)
+		diff = make([]bool, len(img))
+		for i := range diff {
+			diff[i] = true
+		}
+	case "bam-aux-enum":
+		// systematic structure-aware edits of one aux field (type byte,
+		// B subtype, B count, first tag byte, terminator), exhaustive over a
+		// fixed record list
+		recs := c11AuxRecs()
+		h := HdrSpec{SO: "unsorted", Refs: []RefSpec{{"chr1", 1000}}}
+		build := func(edit *StoreFault) []byte {
+			stream := h.EncodeBAMHeader()
+			for i, r := range recs {
+				enc := r.EncodeBAM()
+				if edit != nil && edit.A/64 == i {
+					off := len(enc)
+					for k := len(r.Aux) - 1; k >= 0; k-- {
+						_, raw := r.Aux[k].value()
+						off -= len(raw)
+						if k != edit.A%64 {
+							continue
+						}
+						switch e := edit.B; {
+						case e < 12:
+							enc[off+2] = c11TypeLetters[e]
+						case e < 24:
+							if len(raw) > 3 {
+								enc[off+3] = c11TypeLetters[e-12]
+							}
+						case e < 31:
+							if len(raw) >= 8 {
+								binary.LittleEndian.PutUint32(enc[off+4:], []uint32{0, 1, 7, 8, 9, 255, 1 << 31}[e-24])
+							}
+						case e == 31:
+							enc[off] = 0
+						case e == 32:
+							enc[off+len(raw)-1] = 'x' // overwrite a terminator / last value byte
+						default:
+							// a NUL byte inserted in front of the field (block_size adjusted)
+							enc = append(enc[:off], append([]byte{0}, enc[off:]...)...)
+							binary.LittleEndian.PutUint32(enc, uint32(len(enc)-4))
+						}
+					}
+				}
+				stream = append(stream, enc...)
+			}
+			return wrapBAM(stream, 7)
+		}
+		valid = build(nil)
+		img = build(&c.Faults[0])
 		diff = make([]bool, len(img))
 		for i := range diff {
 			diff[i] = true
